@@ -9,11 +9,15 @@ NOTE = ("Trusted: Coq 8.16.1 kernel (+vm_compute; no native_compute), no axioms 
 TECH = 'Coq proof of hand-written Gallina model + differential correspondence check (extracted OCaml model vs real code)'
 CHECKS = {
  'C01': dict(
-   text="Theorems (Coq, for every decision procedure returning one child of the asked parent per cell, every valid taxonomy incl. single-child chains "
-        "and single-node levels, every cell list and generator state): c01_path_consistent (a successful run_type_assignment yields one row per cell in "
-        "cell order and every row is a root-to-leaf path of the tree) and c01_total (the run does succeed). Tie: (i) real run_type_assignment with "
+   text="Theorems (Coq, for every decision procedure returning one child of the asked parent per cell — asked only of parents with >= 2 children —, every valid taxonomy incl. "
+        "single-child chains and single-node levels, every cell list and generator state): c01_path_consistent (a successful run_type_assignment yields one row per cell in "
+        "cell order and every row is a root-to-leaf path of the tree), c01_total (the run does succeed), c01_election_with_the_vote (those hypotheses are met by the vote "
+        "model itself, Model/VoteDecide.v: the election run with the vote is total and path-consistent) and c01_stage_one_record_per_cell (the mapping stage as a whole: for ANY "
+        "split of the query into consecutive chunks, any per-chunk generator states and ANY completion order of the workers, gathering and re_order_blob yield exactly one "
+        "record per query cell, in query order, each a root-to-leaf path — composing the routing model with the gather model of C04). Tie: (i) real run_type_assignment with "
         "_run_type_assignment replaced by a recorded-choice oracle on every tree shape up to 4 levels / 4-6 leaves + random trees vs the extracted model; "
-        "(ii) real run_mapping pipeline runs (flatten, drop_level, chunk sizes, 1-4 workers) with spec_routing evaluated on the observed records.",
+        "(ii) real run_mapping pipeline runs (flatten, drop_level, both, chunk sizes, 1-4 workers, 11-40 cells, > 255 iterations, trivial chains at the top) with spec_routing, "
+        "ids / order, flags and the output files checked on the observed records.",
    note="Model/VoteDecide.v composes parts that are each tied to the code (tally, votes, choose_node) with one fixed tie order; the composition itself is not run against the code. That consecutive chunks of every size tile the query is c05_chunks_cover, the completion of dropped / flattened levels is c17_backfilled_path; HDF5/anndata reading of obs "
         "and the JSON writer are not modelled. F1 (single top node -> KeyError) was repaired in /repo (df833cb).",
    technique=TECH, ref="DESIGN.md section 7 C01"),
